@@ -112,11 +112,44 @@ func C06(c *fw.Ctx) {
 		acceptedWorkload(c, c.Pick(1, 8), e)
 		multiFault(c, c.Pick(3000, 60000), e)
 		macroGraphs(c, e)
+		// "concurrently with other builds", including the very first use of the library in a process: fresh worker processes
+		// whose first action is 32 simultaneous builds; the sequential results are computed afterwards and compared
+		corpus := Corpus(c)
+		cr := gen.Rng(c.Seed, c.ID, "cold")
+		for i := 0; i < c.Pick(48, 600); i++ {
+			cj := &proto.ConcJob{ColdStart: true, Goroutines: 32, Rounds: 1, Seed: c.Seed*100 + int64(i)}
+			for len(cj.Projects) < 8 {
+				p := corpus[cr.Intn(len(corpus))]
+				if !p.HasInclude() {
+					cj.Projects = append(cj.Projects, proto.ConcProject{Name: p.Name, Content: p.RootContent()})
+				}
+			}
+			emit(&proto.Job{ID: fmt.Sprintf("cold/%d", i), Conc: cj, Fresh: true})
+		}
 	}, func(j *proto.Job, res *proto.Result) {
 		if workerProblem(c, res) {
 			return
 		}
 		label := j.ID[:strings.Index(j.ID, "/")]
+		if label == "cold" {
+			c.Count(j.ID+fmt.Sprint(j.Conc.Seed), true)
+			c.Inc("streams", "cold-start-concurrent-first-use", 1)
+			if res.Fatal != nil {
+				c.Violate("fatal:"+res.Fatal.Kind+":"+res.Fatal.Func, "concurrent first use of the library in a fresh process killed it: "+firstLines(res.Fatal.Stderr, 6), replayOf(j, res))
+				return
+			}
+			if res.Conc != nil {
+				c.Inc("builds_compared", "cold-start", res.Conc.Builds)
+				for _, m := range res.Conc.Mismatches {
+					if strings.HasPrefix(m, "only-examples:") {
+						c.Violate("nondeterministic:"+sigRegexExample, m, replayOf(j, res))
+						continue
+					}
+					c.Violate("nondeterministic:concurrent-first-use", "a build that ran concurrently with the first use of the library differs from the same build alone: "+m, replayOf(j, res))
+				}
+			}
+			return
+		}
 		base := j.ID[:strings.LastIndex(j.ID, "#")]
 		if sig, _ := crashSig(res); sig != "" && res.Fatal != nil {
 			c.Count(jobKey(j), false)
